@@ -2532,3 +2532,54 @@ def unsigned_wraps(fn: FuncInfo, params):
             p = raw_in(n.operand)
             if p:
                 yield n, p
+
+
+# ---------------------------------------------------------------------------------------------------------------
+def integer_powers_of_raw_inputs(fn: FuncInfo):
+    """(node, param): `p ** k` (k an integer constant >= 2) or `p * p` on a RAW array-like parameter (annotated ndarray / NumberOrArray
+    / ArrayLike, never rebound) - the power is formed in the caller's dtype, so whole degrees held as int16 overflow for |p| >= 182 (and
+    12 * p ** 2 for |p| >= 53).  `(p / x) ** 2`, `np.square(p / x)`, `p.astype(float) ** 2`, `float(p) ** 2` promote first."""
+    a = fn.node.args
+    arr = {x.arg for x in a.posonlyargs + a.args + a.kwonlyargs if x.annotation is not None
+           and any(k in norm(x.annotation) for k in ('ndarray', 'NumberOrArray', 'ArrayLike'))}
+    if not arr:
+        return
+    rebound = {t.id for n in walk_no_nested(fn.node) if isinstance(n, (ast.Assign, ast.AugAssign, ast.AnnAssign))
+               for t in (n.targets if isinstance(n, ast.Assign) else [n.target]) if isinstance(t, ast.Name)}
+    raw = arr - rebound
+    for n in walk_no_nested(fn.node):
+        if isinstance(n, ast.BinOp):
+            l, r = n.left, n.right
+            if isinstance(n.op, ast.Pow) and isinstance(l, ast.Name) and l.id in raw and isinstance(r, ast.Constant) \
+                    and type(r.value) is int and r.value >= 2:
+                yield n, l.id
+            elif isinstance(n.op, ast.Mult) and isinstance(l, ast.Name) and isinstance(r, ast.Name) and l.id == r.id and l.id in raw:
+                yield n, l.id
+        elif isinstance(n, ast.Call) and norm(n.func) in ('np.square', 'np.power', 'numpy.square', 'numpy.power') and n.args \
+                and isinstance(n.args[0], ast.Name) and n.args[0].id in raw:
+            yield n, n.args[0].id
+
+
+def check_no_integer_powers_of_inputs(ctx, rule: str, module_paths, floor: int = 0) -> int:
+    ctx.rule(rule, 'a closed formula never squares / raises to an integer power a raw array-like input in the caller\'s dtype (narrow '
+                   'integer arrays - whole degrees or metres as int16 - overflow silently); it promotes first: (x / c) ** 2', floor=floor)
+    M = ctx.model
+    n = 0
+    for path in module_paths:
+        mod = M.module(path)
+        fns = [f for c in mod.classes.values() for f in list(c.methods.values())] + list(mod.functions.values())
+        for fn in fns:
+            a = fn.node.args
+            if not any(x.annotation is not None and any(k in norm(x.annotation) for k in ('ndarray', 'NumberOrArray', 'ArrayLike'))
+                       for x in a.posonlyargs + a.args + a.kwonlyargs):
+                continue
+            ctx.instance(rule, fn.qualname)
+            n += 1
+            hits = list(integer_powers_of_raw_inputs(fn))
+            ctx.obligation(rule, fn.qualname, not hits, {'powers': [norm(h[0])[:50] for h in hits]} if hits else None,
+                           nontrivial=any(isinstance(x, ast.BinOp) and isinstance(x.op, ast.Pow) for x in walk_no_nested(fn.node)))
+            for node, p in hits[:1]:
+                ctx.violation(rule, fn.qualname, '`%s` is evaluated in the dtype of the caller\'s `%s`: for a narrow integer array (whole degrees '
+                              'as int16) the power wraps around silently and the formula returns garbage; divide / convert to float first'
+                              % (norm(node)[:50], p), fn.path, node.lineno, operand='integer-power:' + p)
+    return n
